@@ -29,13 +29,18 @@ def readers(ctx):
     for i in range(ctx.budget(12, 400)):
         shape = rng.choice(c18.SHAPES)
         n = int(numpy.prod(shape))
-        vals = [rng.choice([-9999.0, -1.0, 0.0, 0.5, 1.0, 2.0, 7.0]) for _ in range(n)]
+        tname = rng.choice([None, "Float", "Integer", "Positive Float", "Positive Integer", "Fuzzy"])
+        pool = [-9999.0, -1.0, 0.0, 0.5, 1.0, 2.0, 7.0]
+        if tname in ("Positive Float", "Positive Integer"):
+            pool = [0.0, 0.5, 1.0, 2.0, 7.0]          # admissible for the declared type: only the payload under missing cells is not
+        if tname == "Fuzzy":
+            pool = [-1.0, -0.5, 0.0, 0.5, 1.0]
+        vals = [rng.choice(pool) for _ in range(n)]
         mask = eems.rand_mask(rng, n, rng.choice(["one", "some"]))
         arr = numpy.ma.array(numpy.array(vals).reshape(shape), mask=numpy.array(mask).reshape(shape))
         path = os.path.join(tmp, "v%d.nc" % (i % 5))
         c18.make_var_file(path, shape, arr, fill=rng.choice([-9999.0, None, 1e30]))
         missing = rng.choice([None, 7, 0, 2.0, -12345])
-        tname = rng.choice([None, "Float", "Integer"])
         out = c18.read_impl(path, "v", tname, missing)
         ctx.case("ncreader %r %r %r" % (vals, mask, missing), sample=None)
         ctx.count("reader_cases:netcdf")
@@ -48,8 +53,8 @@ def readers(ctx):
         with Dataset(path) as ds:           # what the file itself marks as missing (cells stored as the fill value), per the library
             mask = numpy.ma.getmaskarray(ds["v"][:]).ravel().tolist()
         desc["file_missing"] = mask
-        conv = (lambda x: float(numpy.rint(x))) if tname == "Integer" else float
-        mv = None if missing is None else (float(int(missing)) if tname == "Integer" else float(missing))
+        conv = (lambda x: float(numpy.rint(x))) if tname in ("Integer", "Positive Integer") else float
+        mv = None if missing is None else (float(int(missing)) if tname in ("Integer", "Positive Integer") else float(missing))
         want = [m or (mv is not None and conv(v) == mv) for v, m in zip(vals, mask)]
         if gm != want:
             ctx.fail("NetCDF EEMSRead: missing cells %r; the file marks %r missing and MissingValue=%r adds exactly the equal cells: %r" % (gm, mask, missing, want), desc)
